@@ -13,6 +13,7 @@ import EpgVerif.Model.Diffusion
 import EpgVerif.Model.Imaging
 import EpgVerif.Model.Exchange
 import EpgVerif.Model.Heap
+import EpgVerif.Model.Bind
 /-
   Line-protocol driver over the executable model at `K := CF` (DESIGN Appendix A).
   One request per line; floats travel as the decimal of their IEEE-754 bits.
@@ -385,6 +386,13 @@ def step (d : DState) (line : String) : DState × List String :=
   | ["dump"] => (d, [dumpSM d.sm])
   | ["dumpeq"] => (d, [dumpEq d.sm])
   | "sexpr" :: rest => (d, [sexprCmd rest])
+  | ["vbind", ps, nargs, kws] =>
+      -- vbind <POSITIONALS comma> <number of positional args> <keywords in call order, comma, `-` for none>
+      let P := ps.splitOn ","
+      let n := nargs.toNat!
+      let args := (List.range n).map (fun i => s!"#{i}")
+      let kw := if kws = "-" then [] else (kws.splitOn ",").map (fun k => (k, k))
+      (d, ["vbind " ++ ",".intercalate (Bind.bindPos P args kw)])
   | "bcast" :: shapes =>
       (d, [match Shp.broadcastAll (shapes.map shapeOfTok) with
            | some r => s!"shape {showShape r}"
